@@ -120,3 +120,98 @@ Proof.
   rewrite supplier_paths_of, supplier_urls_of. unfold merged_paths. cbn [sym_cli_of sc_symbols_path sc_symbols_path_legacy sc_symbols_url].
   rewrite H1, H2, H4. split; reflexivity.
 Qed.
+
+(* ------------------------------------------------------------------ from the items of a command line to main()'s flag record *)
+(* field [fld] of struct Cli is filled by the long option [name] and by nothing else *)
+Definition filled_by (fld name : str) : Prop :=
+  (forall n a, find_long CLI n = Some a -> str_eqb (a_field a) fld = str_eqb n name) /\
+  str_eqb "minidump" fld = false /\ str_eqb "symbols_path_legacy" fld = false.
+
+Ltac filled :=
+  split; [|split; reflexivity];
+  let n := fresh "n" in let a := fresh "a" in let H := fresh "H" in
+  intros n a H; unfold find_long in H; apply find_some in H; destruct H as [Hin H];
+  apply andb_true_iff in H; destruct H as [Hne H]; apply str_eqb_eq in H; subst n;
+  unfold CLI, RM.Gen.C20Cli.CLI_ARGS in Hin; cbn in Hin;
+  repeat (destruct Hin as [Hin|Hin]; [subst a; cbn in Hne |- *; try discriminate Hne; reflexivity|]); destruct Hin.
+
+Lemma filled_human : filled_by "human" "human". Proof. filled. Qed.
+Lemma filled_json : filled_by "json" "json". Proof. filled. Qed.
+Lemma filled_dump : filled_by "dump" "dump". Proof. filled. Qed.
+Lemma filled_help_md : filled_by "help_markdown" "help-markdown". Proof. filled. Qed.
+Lemma filled_pretty : filled_by "pretty" "pretty". Proof. filled. Qed.
+Lemma filled_brief : filled_by "brief" "brief". Proof. filled. Qed.
+Lemma filled_recover : filled_by "recover_function_args" "recover-function-args". Proof. filled. Qed.
+Lemma filled_cyborg : filled_by "cyborg" "cyborg". Proof. filled. Qed.
+Lemma filled_output : filled_by "output_file" "output-file". Proof. filled. Qed.
+Lemma filled_log : filled_by "log_file" "log-file". Proof. filled. Qed.
+
+Lemma values_from : forall fld name, filled_by fld name -> forall items acc out, items_effect CLI acc items = Some out ->
+  values_of out fld = (values_of acc fld ++ opt_values name items)%list.
+Proof.
+  intros fld name [Hf [Hm Hl]]. induction items as [|it r IH]; intros acc out H; cbn [items_effect] in H.
+  - inversion H; subst. cbn. rewrite app_nil_r. reflexivity.
+  - destruct (item_effect CLI acc it) as [acc'|] eqn:E; [|discriminate].
+    destruct (item_effect_shape _ _ _ _ E) as [a [v [Ht Hacc']]]. subst acc'.
+    rewrite (IH _ _ H). rewrite values_of_app. clear IH H E.
+    destruct it as [n|n v'|n v'|w]; cbn [item_target] in Ht.
+    1-3: destruct (find_long CLI n) as [a0|] eqn:Ef; [|discriminate]; inversion Ht; subst a0 v;
+         rewrite (Hf _ _ Ef); unfold opt_values; cbn [flat_map]; fold (opt_values name r);
+         rewrite <- app_assoc; reflexivity.
+    destruct (next_positional CLI acc) as [a0|] eqn:En; [|discriminate]. inversion Ht; subst a0 v.
+    rewrite (cli_next_positional _ _ En). unfold opt_values. cbn [flat_map app]. fold (opt_values name r).
+    destruct (has_field acc "minidump"); rewrite ?Hm, ?Hl, app_nil_r; reflexivity.
+Qed.
+
+Lemma has_field_values : forall acc fld, has_field acc fld = match values_of acc fld with [] => false | _ => true end.
+Proof.
+  induction acc as [|[f v] acc IH]; intro fld; [reflexivity|].
+  unfold has_field, values_of in *. cbn. destruct (str_eqb f fld); cbn; [reflexivity|apply IH].
+Qed.
+
+Definition given (name : str) (items : list item) : bool :=
+  match opt_values name items with [] => false | _ => true end.
+Definition first_value (name : str) (items : list item) : option str := hd_error (opt_values name items).
+
+(* main()'s flag record, read off the command line item by item *)
+Lemma argv_flags : forall pid items out f, items_effect CLI [] items = Some out ->
+  interpret pid DEFAULTS ARMS (PParsed out) = CliFlags f ->
+  f_human f = given "human" items /\ f_json f = given "json" items /\ f_dump f = given "dump" items /\
+  f_help_md f = given "help-markdown" items /\ f_pretty f = given "pretty" items /\ f_brief f = given "brief" items /\
+  f_recover f = given "recover-function-args" items /\
+  f_cyborg f = option_map pid (first_value "cyborg" items) /\
+  f_output_file f = option_map pid (first_value "output-file" items) /\
+  f_log_file f = option_map pid (first_value "log-file" items).
+Proof.
+  intros pid items out f H Hi. unfold interpret in Hi.
+  destruct (value_of DEFAULTS out "verbose") as [vs|]; [|discriminate].
+  destruct (level_from_str vs) as [level|]; [|discriminate].
+  destruct (value_of DEFAULTS out "features") as [fs|]; [|discriminate].
+  destruct (features_match ARMS fs) as [ft|]; [|discriminate].
+  inversion Hi; subst f. cbn [flags_of f_human f_json f_dump f_help_md f_pretty f_brief f_recover f_cyborg f_output_file f_log_file].
+  rewrite !has_field_values.
+  rewrite (values_from _ _ filled_human items [] out H), (values_from _ _ filled_json items [] out H),
+          (values_from _ _ filled_dump items [] out H), (values_from _ _ filled_help_md items [] out H),
+          (values_from _ _ filled_pretty items [] out H), (values_from _ _ filled_brief items [] out H),
+          (values_from _ _ filled_recover items [] out H), (values_from _ _ filled_cyborg items [] out H),
+          (values_from _ _ filled_output items [] out H), (values_from _ _ filled_log items [] out H).
+  cbn [values_of filter map app]. unfold given, first_value.
+  repeat split; try reflexivity;
+    match goal with |- context [opt_values ?n items] => destruct (opt_values n items); reflexivity end.
+Qed.
+
+(* end to end: a command line read item by item runs main() on exactly the flag record the manual's reading gives *)
+Lemma argv_to_flags : forall pid items out e, items_effect CLI [] items = Some out ->
+  parse CLI GROUP (render items) = PParsed out ->
+  exists f, stackwalk pid (render items) e = lift (run f e) /\
+    f_human f = given "human" items /\ f_json f = given "json" items /\ f_dump f = given "dump" items /\
+    f_help_md f = given "help-markdown" items /\ f_pretty f = given "pretty" items /\ f_brief f = given "brief" items /\
+    f_recover f = given "recover-function-args" items /\
+    f_cyborg f = option_map pid (first_value "cyborg" items) /\
+    f_output_file f = option_map pid (first_value "output-file" items) /\
+    f_log_file f = option_map pid (first_value "log-file" items).
+Proof.
+  intros pid items out e H Hp.
+  destruct (stackwalk_cases pid (render items) e) as [[Hu _]|[[[Hh|Hv] _]|[acc [f [Ha [Hi Hs]]]]]]; try congruence.
+  rewrite Hp in Ha. inversion Ha; subst acc. exists f. split; [exact Hs|]. exact (argv_flags pid items out f H Hi).
+Qed.
